@@ -43,7 +43,7 @@ var Properties = map[string][]string{
 	"C08": {"C08.a", "C08.b", "C08.c"},
 	"C11": {"C11.a", "C11.b", "C11.c", "C11.g", "C11.h", "C01.d", "C12.d", "C11.p"},
 	"C12": {"C12.a", "C12.b", "C12.d", "C16.d", "C12.e", "C13.b", "C12.f"},
-	"C13": {"C13.a", "C13.b", "C13.c", "C10.f"},
+	"C13": {"C13.a", "C13.b", "C13.c", "C10.f", "C01.a"},
 	"C17": {"C12.a", "C17.a", "C17.b", "C17.c", "C06.e", "C17.e", "C11.c", "C11.g", "C17.f", "C11.p"},
 	"C16": {"C16.a", "C16.b", "C16.c", "C16.d", "C12.d", "C16.e"},
 	"C15": {"C15.b", "C15.d", "C12.b"},
